@@ -1,7 +1,479 @@
-//! C17 — not implemented yet.
-use vmon::report::Args;
+//! C17 — change data feed and version columns.
+//!
+//! Stable row ids, multi-fragment tables, histories of <= 9 operations (append, update, upsert,
+//! partial-schema merge, insert-only merge, delete, compaction). After every step the scan of
+//! `_rowid`, `_row_created_at_version`, `_row_last_updated_at_version` is compared with the model
+//! (created = version in which the row's row id first appeared, last-updated = last version whose
+//! update / upsert / column rewrite changed the row). At the end, for ALL version pairs (b, e):
+//! `checkout(e).delta().with_begin_version(b).with_end_version(e)` -> `get_inserted_rows` /
+//! `get_updated_rows` id sets == model.
 
-pub fn run(_args: &Args) -> i32 {
-    eprintln!("HARNESS-ERROR C17 not implemented");
-    2
+use futures::TryStreamExt;
+use lance::Dataset;
+use serde_json::json;
+use std::collections::{BTreeMap, BTreeSet};
+use vmon::prng::{fnv_str, Rng};
+use vmon::report::{Args, Report};
+
+use crate::hist::{check_contents, observe, Finding, Hist, HistCfg, Obs, Outcome};
+use crate::util::{guard, install_quiet_panic_hook, run_parallel, selftest_requested, Histo};
+
+#[derive(Clone, Debug, Default)]
+pub struct Prov {
+    /// op kind that inserted the row ("create", "append", "upsert", "insert_only", "partial_upsert")
+    pub origin: &'static str,
+    /// rewritten by update / upsert (rows moved to a new fragment)
+    pub rewritten_rows: bool,
+    /// touched by a partial-schema merge (column rewrite in place)
+    pub rewritten_cols: bool,
+}
+
+impl Prov {
+    fn class(&self) -> String {
+        format!(
+            "{}:{}",
+            match self.origin {
+                "create" | "append" => "written",
+                _ => "merge-inserted",
+            },
+            match (self.rewritten_rows, self.rewritten_cols) {
+                (false, false) => "never-rewritten",
+                (true, false) => "rows-rewritten",
+                (false, true) => "cols-rewritten",
+                (true, true) => "rows+cols-rewritten",
+            }
+        )
+    }
+}
+
+/// expected (created, updated) per id at one version
+pub type Expect = BTreeMap<i64, (u64, u64)>;
+
+/// Version-column oracle at one version. Returns findings; `class_of` gives the provenance class.
+pub fn column_oracle(exp: &Expect, obs: &Obs, prov: &BTreeMap<i64, Prov>, after: &str) -> Vec<Finding> {
+    let mut out = vec![];
+    let mut bad_created: BTreeMap<String, Vec<(i64, u64, Option<u64>)>> = BTreeMap::new();
+    let mut bad_updated: BTreeMap<String, Vec<(i64, u64, Option<u64>)>> = BTreeMap::new();
+    for r in &obs.rows {
+        let Some((c, u)) = exp.get(&r.id) else { continue };
+        let class = prov.get(&r.id).map(|p| p.class()).unwrap_or_else(|| "?".into());
+        if r.created != Some(*c) {
+            bad_created.entry(class.clone()).or_default().push((r.id, *c, r.created));
+        }
+        if r.updated != Some(*u) {
+            bad_updated.entry(class).or_default().push((r.id, *u, r.updated));
+        }
+    }
+    for (class, v) in bad_created {
+        out.push(Finding::new(
+            format!("created-at-wrong:{class}"),
+            format!(
+                "{} rows ({class}) report a wrong _row_created_at_version at v{} (after {after}); e.g. id {} expected {} got {:?}",
+                v.len(),
+                obs.version,
+                v[0].0,
+                v[0].1,
+                v[0].2
+            ),
+            json!({"version": obs.version, "after": after, "examples": v.iter().take(6).map(|x| json!({"id": x.0, "expected": x.1, "observed": x.2})).collect::<Vec<_>>()}),
+        ));
+    }
+    for (class, v) in bad_updated {
+        out.push(Finding::new(
+            format!("last-updated-wrong:{class}"),
+            format!(
+                "{} rows ({class}) report a wrong _row_last_updated_at_version at v{} (after {after}); e.g. id {} expected {} got {:?}",
+                v.len(),
+                obs.version,
+                v[0].0,
+                v[0].1,
+                v[0].2
+            ),
+            json!({"version": obs.version, "after": after, "examples": v.iter().take(6).map(|x| json!({"id": x.0, "expected": x.1, "observed": x.2})).collect::<Vec<_>>()}),
+        ));
+    }
+    out
+}
+
+pub fn expected_delta(exp: &Expect, b: u64, e: u64) -> (BTreeSet<i64>, BTreeSet<i64>) {
+    let mut ins = BTreeSet::new();
+    let mut upd = BTreeSet::new();
+    for (id, (c, u)) in exp {
+        if *c > b && *c <= e {
+            ins.insert(*id);
+        } else if *c <= b && *u > b && *u <= e {
+            upd.insert(*id);
+        }
+    }
+    (ins, upd)
+}
+
+/// what the observed version columns at version e imply for the pair (b, e)
+fn implied_delta(obs: &Obs, b: u64, e: u64) -> (BTreeSet<i64>, BTreeSet<i64>) {
+    let mut ins = BTreeSet::new();
+    let mut upd = BTreeSet::new();
+    for r in &obs.rows {
+        let (Some(c), Some(u)) = (r.created, r.updated) else { continue };
+        if c > b && c <= e {
+            ins.insert(r.id);
+        } else if c <= b && u > b && u <= e {
+            upd.insert(r.id);
+        }
+    }
+    (ins, upd)
+}
+
+/// Delta oracle for one pair.
+pub fn delta_oracle(
+    exp: &Expect,
+    obs_e: &Obs,
+    b: u64,
+    e: u64,
+    got_ins: &BTreeSet<i64>,
+    got_upd: &BTreeSet<i64>,
+    column_classes: &BTreeSet<String>,
+) -> Vec<Finding> {
+    let mut out = vec![];
+    let (ei, eu) = expected_delta(exp, b, e);
+    let (ii, iu) = implied_delta(obs_e, b, e);
+    for (name, want, implied, got) in [("inserted", &ei, &ii, got_ins), ("updated", &eu, &iu, got_upd)] {
+        if want == got {
+            continue;
+        }
+        let missing: Vec<&i64> = want.difference(got).take(8).collect();
+        let extra: Vec<&i64> = got.difference(want).take(8).collect();
+        let sig = if got == implied && !column_classes.is_empty() {
+            // the stream is exactly the filter over the (wrong) version columns: same defect
+            format!(
+                "{name}-rows-delta-wrong-as-implied-by-version-columns[{}]",
+                column_classes.iter().cloned().collect::<Vec<_>>().join(",")
+            )
+        } else if got == implied {
+            format!("{name}-rows-delta-differs-from-model")
+        } else {
+            format!("{name}-rows-delta-inconsistent-with-version-columns")
+        };
+        out.push(Finding::new(
+            sig,
+            format!(
+                "get_{name}_rows for ({b}, {e}] returned {} ids, the model says {} (missing {:?}, extra {:?})",
+                got.len(),
+                want.len(),
+                missing,
+                extra
+            ),
+            json!({"begin": b, "end": e, "missing": missing, "extra": extra}),
+        ));
+    }
+    out
+}
+
+async fn stream_ids(s: lance::dataset::scanner::DatasetRecordBatchStream) -> lance::Result<(BTreeSet<i64>, usize, Vec<String>)> {
+    let bs: Vec<arrow_array::RecordBatch> = s.try_collect().await?;
+    let mut ids = BTreeSet::new();
+    let mut n = 0;
+    let mut names = vec![];
+    for b in &bs {
+        if names.is_empty() {
+            names = b.schema().fields().iter().map(|f| f.name().clone()).collect();
+        }
+        if let Some(a) = b
+            .column_by_name("id")
+            .and_then(|c| c.as_any().downcast_ref::<arrow_array::Int64Array>().cloned())
+        {
+            n += a.len();
+            ids.extend(a.values().iter().copied());
+        }
+    }
+    Ok((ids, n, names))
+}
+
+async fn deltas(ds_e: &Dataset, b: u64, e: u64) -> lance::Result<(BTreeSet<i64>, BTreeSet<i64>, bool)> {
+    let d = ds_e.delta().with_begin_version(b).with_end_version(e).build()?;
+    let (ins, n_ins, names) = stream_ids(d.get_inserted_rows().await?).await?;
+    let (upd, n_upd, _) = stream_ids(d.get_updated_rows().await?).await?;
+    let dup = n_ins != ins.len() || n_upd != upd.len();
+    let _ = names;
+    Ok((ins, upd, dup))
+}
+
+struct Ctx<'a> {
+    report: &'a Report,
+    ops: &'a Histo,
+    diag: &'a Histo,
+}
+
+const WEIGHTS: &[(u32, &str)] = &[
+    (4, "append"),
+    (5, "update"),
+    (4, "upsert"),
+    (2, "partial_upsert"),
+    (1, "insert_only"),
+    (3, "delete"),
+    (3, "compact_any"),
+];
+
+async fn run_case(cx: &Ctx<'_>, seed: u64, idx: u64, selftest: bool) -> (u64, u64) {
+    let mut rng = Rng::for_case(seed, idx);
+    let mut cfg = HistCfg::random(&mut rng, Some(true));
+    cfg.initial_rows = rng.urange(8, 30);
+    cfg.initial_rows_per_file = *rng.pick(&[3usize, 4, 5, 8]);
+    let mut h = match Hist::create(&mut rng, cfg.clone(), &format!("c17-{seed}-{idx}"), (idx % 4000) as usize + 1).await {
+        Ok(h) => h,
+        Err(e) => {
+            cx.report.harness_error(&format!("case {idx}: create failed: {}", e.brief()));
+            return (0, 0);
+        }
+    };
+    let max_versions = 10u64;
+    let mut prov: BTreeMap<i64, Prov> = h
+        .model
+        .rows
+        .keys()
+        .map(|id| (*id, Prov { origin: "create", ..Default::default() }))
+        .collect();
+    let mut rowid_first_seen: BTreeMap<u64, u64> = BTreeMap::new();
+    let mut exp_at: BTreeMap<u64, Expect> = BTreeMap::new();
+    let mut obs_at: BTreeMap<u64, Obs> = BTreeMap::new();
+    let mut classes_at: BTreeMap<u64, BTreeSet<String>> = BTreeMap::new();
+    let mut kinds: Vec<&'static str> = vec![];
+    let mut last: &'static str = "create";
+    let mut rows_compared = 0u64;
+    let mut rowid_changed_rows = 0u64;
+    let (mut applied, mut detected) = (0u64, 0u64);
+    let mut findings_all: Vec<Finding> = vec![];
+    let mut steps = 0usize;
+    loop {
+        // ---- monitor at this version
+        let obs = match guard(observe(&h.ds, true)).await {
+            Ok(o) => o,
+            Err(e) => {
+                cx.report.violation(
+                    &format!("scan-of-version-columns-failed-after-{last}"),
+                    "scan projecting the version columns fails",
+                    json!({"seed": seed, "case": idx, "error": e.brief(), "history": h.log_json()}),
+                );
+                return (0, 0);
+            }
+        };
+        let pre = check_contents(&h.model, &obs, last);
+        if !pre.is_empty() {
+            for f in pre {
+                cx.report.violation(&f.sig, &f.what, json!({"seed": seed, "case": idx, "detail": f.detail, "history": h.log_json()}));
+            }
+            return (0, 0);
+        }
+        let v = obs.version;
+        for r in &obs.rows {
+            if let Some(rid) = r.rowid {
+                rowid_first_seen.entry(rid).or_insert(v);
+            }
+        }
+        // expected: created = version at which this row's row id first appeared;
+        // updated = model (op based)
+        let mut exp: Expect = BTreeMap::new();
+        for r in &obs.rows {
+            let m = &h.model.rows[&r.id];
+            let created = r.rowid.and_then(|x| rowid_first_seen.get(&x).copied()).unwrap_or(m.created);
+            if created != m.created {
+                rowid_changed_rows += 1; // the row id changed during an update: C18's subject
+            }
+            exp.insert(r.id, (created, m.updated.max(created)));
+        }
+        if !selftest {
+            let f = column_oracle(&exp, &obs, &prov, last);
+            rows_compared += obs.rows.len() as u64;
+            let mut cl = BTreeSet::new();
+            for x in &f {
+                cl.insert(x.sig.clone());
+            }
+            classes_at.insert(v, cl);
+            findings_all.extend(f);
+        }
+        exp_at.insert(v, exp);
+        obs_at.insert(v, obs);
+        if v >= max_versions || steps >= 14 {
+            break;
+        }
+        // ---- next op
+        let before_model = h.model.clone();
+        let op = h.gen_op(&mut rng, WEIGHTS);
+        let out = h.apply(&mut rng, &op).await;
+        cx.ops.add(op.kind(), 1);
+        last = op.kind();
+        match out {
+            Outcome::Applied | Outcome::NoEffect => {
+                if matches!(out, Outcome::Applied) {
+                    kinds.push(op.kind());
+                }
+                for (id, m) in &h.model.rows {
+                    match before_model.rows.get(id) {
+                        None => {
+                            prov.insert(*id, Prov { origin: op.kind(), ..Default::default() });
+                        }
+                        Some(b) => {
+                            if b.updated != m.updated {
+                                let p = prov.entry(*id).or_default();
+                                if op.kind() == "partial_upsert" {
+                                    p.rewritten_cols = true;
+                                } else {
+                                    p.rewritten_rows = true;
+                                }
+                            }
+                        }
+                    }
+                }
+            }
+            Outcome::Rejected(f) => {
+                cx.report.rejected();
+                cx.diag.add(&format!("rejected:{}:{}", op.kind(), f.msg().chars().take(80).collect::<String>()), 1);
+            }
+            Outcome::Failed(f) => {
+                cx.diag.add(&format!("failed:{}:{}", op.kind(), f.brief().chars().take(120).collect::<String>()), 1)
+            }
+        }
+        steps += 1;
+    }
+    // ---- deltas for ALL version pairs
+    let versions: Vec<u64> = obs_at.keys().copied().collect();
+    let mut pairs = 0u64;
+    let mut nonempty_pairs = 0u64;
+    for &e in &versions {
+        let ds_e = match guard(h.ds.checkout_version(e)).await {
+            Ok(d) => d,
+            Err(err) => {
+                cx.report.inconclusive(&format!("case {idx}: checkout v{e} failed: {}", err.brief()));
+                continue;
+            }
+        };
+        for &b in versions.iter().filter(|b| **b < e) {
+            let r = guard(deltas(&ds_e, b, e)).await;
+            match r {
+                Err(err) => {
+                    findings_all.push(Finding::new(
+                        "delta-stream-failed",
+                        format!("delta ({b}, {e}] failed: {}", err.brief()),
+                        json!({"begin": b, "end": e}),
+                    ));
+                }
+                Ok((mut ins, upd, dup)) => {
+                    pairs += 1;
+                    if dup {
+                        findings_all.push(Finding::new(
+                            "delta-returns-a-row-twice",
+                            format!("delta ({b}, {e}] returned a row twice"),
+                            json!({"begin": b, "end": e}),
+                        ));
+                    }
+                    if selftest {
+                        let (ei, _) = expected_delta(&exp_at[&e], b, e);
+                        if ei == ins && !ins.is_empty() {
+                            let first = *ins.iter().next().unwrap();
+                            ins.remove(&first);
+                            applied += 1;
+                            if !delta_oracle(&exp_at[&e], &obs_at[&e], b, e, &ins, &upd, &BTreeSet::new()).is_empty() {
+                                detected += 1;
+                            }
+                        }
+                        continue;
+                    }
+                    if !ins.is_empty() || !upd.is_empty() {
+                        nonempty_pairs += 1;
+                    }
+                    let classes = classes_at.get(&e).cloned().unwrap_or_default();
+                    findings_all.extend(delta_oracle(&exp_at[&e], &obs_at[&e], b, e, &ins, &upd, &classes));
+                }
+            }
+        }
+    }
+    if selftest {
+        // version column corruption
+        if let Some((v, o)) = obs_at.iter().next_back() {
+            if !o.rows.is_empty() {
+                let mut o2 = o.clone();
+                o2.rows[0].created = o2.rows[0].created.map(|x| x + 1);
+                applied += 1;
+                if !column_oracle(&exp_at[v], &o2, &prov, "selftest").is_empty() {
+                    detected += 1;
+                }
+                let mut o3 = o.clone();
+                o3.rows[0].updated = None;
+                applied += 1;
+                if !column_oracle(&exp_at[v], &o3, &prov, "selftest").is_empty() {
+                    detected += 1;
+                }
+            }
+        }
+        return (applied, detected);
+    }
+    cx.report.count("rows_compared_version_columns", rows_compared);
+    cx.report.count("version_pairs_checked", pairs);
+    cx.report.count("version_pairs_with_nonempty_delta", nonempty_pairs);
+    cx.report.count("versions_observed", versions.len() as u64);
+    cx.report.count("rows_whose_rowid_changed_in_an_update", rowid_changed_rows);
+    // de-duplicate findings by signature, keep the first witness of each
+    let mut seen = BTreeSet::new();
+    for f in findings_all {
+        if seen.insert(f.sig.clone()) {
+            cx.report.violation(
+                &f.sig,
+                &f.what,
+                json!({"seed": seed, "case": idx, "detail": f.detail, "history": h.log_json()}),
+            );
+        }
+    }
+    let rewrites = kinds.iter().filter(|k| matches!(**k, "update" | "upsert" | "partial_upsert")).count();
+    let nontrivial = versions.len() >= 4 && rewrites >= 1 && nonempty_pairs >= 3 && h.ds.count_fragments() >= 2;
+    let sig = format!("{:?}|{}|{}", cfg.version, cfg.initial_rows_per_file, kinds.join(","));
+    cx.report.case(if nontrivial { Some(fnv_str(&sig)) } else { None });
+    if nontrivial && cx.report.want_sample() {
+        cx.report.sample(json!({"case": idx, "versions": versions, "pairs": pairs, "history": h.log_json()}));
+    }
+    (0, 0)
+}
+
+pub fn run(args: &Args) -> i32 {
+    install_quiet_panic_hook();
+    let report = Report::new(
+        args,
+        "exploration",
+        "One case = a seeded history of <=9 applied operations (append, update, upsert, partial-schema merge, insert-only \
+         merge, delete, compact_files / distributed compaction) on a multi-fragment table with stable row ids; at every \
+         version the scan of _rowid/_row_created_at_version/_row_last_updated_at_version is compared with the model, and \
+         for all version pairs (b,e) the id sets of get_inserted_rows / get_updated_rows (dataset checked out at e) with \
+         the model's. Non-trivial = >=4 versions, >=1 update-like op, >=3 pairs with a non-empty delta, >=2 fragments; \
+         distinct by (storage version, file size, applied op kinds).",
+        (70, 900),
+    )
+    .with_min_nontrivial(args.tier.pick(30, 300));
+    let ops = Histo::default();
+    let diag = Histo::default();
+    let cx = Ctx {
+        report: &report,
+        ops: &ops,
+        diag: &diag,
+    };
+    let selftest = selftest_requested(args);
+    let max_cases = if selftest { 40 } else { args.tier.pick(1_000, 30_000) };
+    let st = std::sync::Mutex::new((0u64, 0u64));
+    if let Some(i) = args.extra.get("case").and_then(|s| s.parse::<u64>().ok()) {
+        let rt = tokio::runtime::Builder::new_current_thread().enable_all().build().unwrap();
+        rt.block_on(run_case(&cx, args.seed, i, false));
+    } else {
+        run_parallel(&report, max_cases, 16, |i, rt| {
+            let r = rt.block_on(run_case(&cx, args.seed, i, selftest));
+            let mut g = st.lock().unwrap();
+            g.0 += r.0;
+            g.1 += r.1;
+        });
+    }
+    if selftest {
+        let g = st.lock().unwrap();
+        println!("SELFTEST C17 corruptions_applied={} detected={}", g.0, g.1);
+        return if g.0 > 0 && g.0 == g.1 { 0 } else { 2 };
+    }
+    report.set("ops_by_kind", ops.json());
+    report.set("op_failures_and_rejections", diag.json());
+    report.assume("deltas are taken on the dataset checked out at the end version of the pair");
+    report.finish()
 }
